@@ -8,6 +8,6 @@ for d in seeded/*/; do
 import json,sys
 m=json.load(open('$d/meta.json'))
 c=m.get('detected_by',{}).get('check','')
-print(c.split()[1] if c else m.get('breaks_property',m.get('property','')))")
-  tools/seedrun.sh "$id" "$prop" quick 2>&1 | head -1 | cut -c1-220
+print((c.split()[1]+' '+c.split()[2]) if c else m.get('breaks_property',m.get('property',''))+' quick')")
+  tools/seedrun.sh "$id" $prop 2>&1 | head -1 | cut -c1-220
 done
